@@ -5,6 +5,8 @@ mod gen;
 mod hist;
 mod iter;
 mod ng;
+mod parse;
+mod syntax;
 mod sem;
 mod util;
 
@@ -22,6 +24,7 @@ fn main() {
         "frontend" => frontend::main(&args[2..]),
         "iter" => iter::main(&args[2..]),
         "ng" => ng::main(&args[2..]),
+        "parse" => parse::main(&args[2..]),
         other => {
             eprintln!("unknown subcommand {}", other);
             std::process::exit(2);
